@@ -209,9 +209,9 @@ pub fn property() -> Property {
         subs: vec![
             Box::new(PropSub {
                 name: "C04/random",
-                quick: 90_000,
+                quick: 270_000,
                 thorough: 1_800_000,
-                shards_quick: 15,
+                shards_quick: 16,
                 shards_thorough: 16,
                 strat,
                 check,
